@@ -42,3 +42,25 @@ def root_commit_stats_under_log_showroot_false():
         return sorted({v["kind"] for v in s.viol}), [dict(v) for v in s.viol[:5]]
     finally:
         s.destroy()
+
+
+def ignored_file_with_a_path_git_quotes():
+    """D85 (fixed): an agent writes `föo.lock` (2 lines, ignored by the default pattern *.lock) and one line of ok.txt in one commit =>
+    `git-ai stats` counted the lock file's lines as added (and as human additions): the ignore patterns were matched against the raw
+    path column of `git show --numstat`, which is the C-quoted form "f\\303\\266o.lock" (it ends with a double quote, so *.lock does
+    not match), while the note side and the diff side use the unquoted path."""
+    from ..props import c19
+
+    class S(Script, Hist):
+        pass
+    s = S("d85", files=1)
+    try:
+        s.human_write("ok.txt", [s.line("human") for _ in range(2)]); s.commit_all("init")
+        s.ai_write("S1", "föo.lock", [s.line("S1"), s.line("S1")])
+        s.ai_write("S1", "dír/package-lock.json", [s.line("S1")])
+        s.ai_write("S1", "ok.txt", s.read("ok.txt") + [s.line("S1")])
+        s.commit_all("ignored files with non-ASCII paths")
+        c19.check_commit_stats(s, s.head())
+        return sorted({v["kind"] for v in s.viol}), [dict(v) for v in s.viol[:5]]
+    finally:
+        s.destroy()
